@@ -28,13 +28,13 @@ CHECKS = {
             "trusted: substrate with crash injection; prefix model of the user-block write; SHA-256 idealised; kills inside HDF5 library writes and fsync/reordering effects are outside; torn-write counterexamples replayed on real h5py files",
             "4/C11"),
     "C06": ("CrossHair/z3 exploration of all bounded sequences of container actions (symbolic action choices realised by solver-driven branching) on the real MetadorContainer/MetadorMeta/TOCLinks/TOCSchemas/TOCPackages stack over the in-memory substrate, both drivers, with patch boundaries and reopen points; after every action raw-tree bookkeeping invariants + reference model; counterexamples replayed on real h5py files",
-            "trusted: substrate (conformance-tested); the real code runs natively once choices are concrete (the TOC stack cannot be traced by CrossHair: DESIGN 9); bounds: 32 actions, sequences of 3 (plain driver) / 2 (IH5), three installed schemas, start state d, g, g/e",
+            "trusted: substrate (conformance-tested); the real code runs natively once choices are concrete (the TOC stack cannot be traced by CrossHair: DESIGN 9); bounds: 37 actions (incl. a harness-registered sibling schema family vt.aa <- vt.bone, vt.btwo), sequences of 3 (plain driver) / 2 (IH5), three installed schemas, start state d, g, g/e",
             "9 (deviation), 4/C06"),
     "C07": ("CrossHair/z3: symbolic schema versions through the real MetadorMeta.query/_get_raw + TOCSchemas.versions/children + PluginRef.supports against a brute-force specification; plus bounded container action sequences (C06 harness) with a reference model of attached metadata (equality of returned objects, parent views, one per schema, exact queries)",
             "trusted: stand-in node/TOCSchemas for the kernel; substrate for sequences; bounds: versions in {0,1}^2 per ref, sequences of 2 actions on both drivers",
             "4/C07, 9"),
     "C20": ("CrossHair/z3 exploration of bounded container action sequences (C06 harness) with the self-description oracle: embedded JSON Schema / parent chain / provider == plugin system, every stored object validates against the embedded schema, same after reopen",
-            "trusted: as C06; partial: only the installed schemas core.file <- core.imagefile and core.dir; pydantic schema generation and jsonschema validation are third party",
+            "trusted: as C06; the installed schemas core.file <- core.imagefile, core.dir and a harness-registered family with two siblings under one parent (vt/testplugins); pydantic schema generation and jsonschema validation are third party",
             "9"),
     "C08": ("CrossHair/z3 symbolic execution of the real MetadorGroup wrapper methods (path guard on every protocol method, enumerated at run time), listing filters and meta-path algebra with structured symbolic reserved paths/names around a recording raw group",
             "trusted: CrossHair/z3 string theory; recording raw mocks; clause (d) (bookkeeping never disturbs user data) is outside (C06); bounds: free parts of paths <=2 chars, 2 symbolic children per listing, canonical paths <=5 chars",
